@@ -40,7 +40,7 @@ m = {
     "hooks": {
         "guard": "verif",
         "enable": "none needed: harnesses are injected as go/packages overlays (symbolic run) and go test -overlay (native replay); nothing is written under /repo",
-        "baseline_off_cmd": "cd /repo && go test -vet=off -count=1 -timeout 25m ./...",
+        "baseline_off_cmd": "cd /repo && go test -mod=mod -vet=off -count=1 -timeout 25m ./...",
         "source_commits": [],
         "add_only": True,
     },
